@@ -14,7 +14,8 @@ CODE = ["yowsup/layers/protocol_notifications/layer.py:recvNotification", "yowsu
         "yowsup/layers/protocol_calls/layer.py:recvCall", "yowsup/layers/protocol_iq/layer.py:recvIq", "yowsup/layers/protocol_messages/layer.py:recvMessageStanza",
         "yowsup/layers/protocol_media/layer.py:recvMessageStanza", "yowsup/layers/__init__.py:YowParallelLayer/YowProtocolLayer", "yowsup/stacks/yowstack.py",
         "yowsup/layers/protocol_contacts/layer.py", "yowsup/layers/protocol_groups/layer.py", "ack_outgoing.py / receipt_outgoing.py entities"]
-BOUNDS = {"quick": "[+ ping with one of the layers (or none) holding a request] " 
+BOUNDS = {"quick": "[+ payload kind protocol-without-key; 2 encrypted envelopes with an unknown-field payload] " 
+                   "[+ ping with one of the layers (or none) holding a request] " 
                    "[+ empty mediatype; status text 2 arbitrary bytes or cleared] " 
                    "(ping: followed by a second ping with an unconstrained id) one stanza per run; ids/JIDs/participants/types unconstrained strings; module selections: all, none, each single module off",
           "thorough": "as quick with all 16 module selections, with and without the encryption layers"}
